@@ -337,6 +337,8 @@ def run_sequence(iface, kind, chunks, seq, disc_at=None):
 
         areq = make_req(kind, chunks)
         env = SV.to_environ(areq)
+        if len(chunks) % 2 and KINDS[kind][0]:
+            env["CONTENT_LENGTH"] = str(len(KINDS[kind][0]))  # (every other script: the client announces the length of its body)
         inp = env["wsgi.input"]  # (kept here: the code under test may put another object into the environ)
         req = Request(env)
         ref = Ref(kind)
